@@ -118,8 +118,7 @@ def explore(task):
                                         timeout_s=60)
     return {"paths": npaths, "queries": queries, "part": "select/%s/n%d" % (scheme, n),
             "explore_s": time.time() - t0, "feas_queries": ex.n_feas_queries,
-            "inconclusive": (["%s n=%d a=%d: %d unknown feasibility answers" % (scheme, n, a, ex.n_unknown)]
-                             if ex.n_unknown else [])}
+            "undecided_feasibility": ex.n_unknown}
 
 
 def explore_reset(task):
